@@ -106,7 +106,7 @@ proof!(k23_twin, 6, {
 });
 
 // ---- extend_usize: the list index rendered in decimal ---------------------------------------------------------
-//@ k23_usize_2d props=C10 tier=probe expect=pass fns=Path::extend_usize :: Path::extend_usize on the root pointer for every index < 100: "/" followed by the index in DECIMAL (one digit below 10, two digits otherwise); position kept
+//@ k23_usize_2d props=C10 tier=quick expect=pass fns=Path::extend_usize :: Path::extend_usize on the root pointer for every index < 100: "/" followed by the index in DECIMAL (one digit below 10, two digits otherwise); position kept
 proof!(k23_usize_2d, 12, {
     let idx: usize = kani::any();
     kani::assume(idx < 100);
